@@ -337,7 +337,8 @@ func (e *Exec) evalStep(s Step) (res interface{}) {
 		b := h.ToBytes()
 		r := e.ofParse(hsms.Parse(b))
 		if e.Opts.Mutate {
-			scribble(b)
+			// written over once the result has been observed for the first time
+			e.scratch = append(e.scratch, b)
 		}
 		return r
 	case "CN":
